@@ -15,6 +15,21 @@ from .symex import (
 )
 
 
+def contains_ite(t):
+    seen = set()
+    stack = [t]
+    while stack:
+        x = stack.pop()
+        i = x.get_id()
+        if i in seen:
+            continue
+        seen.add(i)
+        if z3.is_app(x) and x.decl().kind() == z3.Z3_OP_ITE:
+            return True
+        stack.extend(x.children())
+    return False
+
+
 def base_hint(h):
     """'dict|none' -> 'dict' (the operation at hand already excludes None)"""
     if not h:
@@ -275,6 +290,8 @@ class ExprMixin:
                 return z3.BoolVal(False)
             return z3.Or(*[self.val_eq(x, item) for x in items])
         h = base_hint(cont.hint)
+        if h == "str":
+            return z3.Contains(self.as_str(cont), self.as_str(item))
         if h in ("dict", "set"):
             return self.dict_has(self.as_addr(cont), self.to_val(item))
         if h == "list":
@@ -283,10 +300,15 @@ class ExprMixin:
             r = self.user_contains(cont, item, n)
             if r is not None:
                 return r
+        if cont.k == "val" and not h:
+            return self.user_contains(cont, item, n)
         raise Unsupported(f"'in' on value without container hint ({h!r}) line {getattr(n,'lineno','?')}")
 
     def user_contains(self, cont, item, n):
-        return None
+        """`x in obj` for an object of a class without a model: an uninterpreted
+        predicate of (object, item) - pure, value unknown"""
+        f = z3.Function("obj_contains", core.IntS, Val, core.BoolS)
+        return f(self.as_addr(cont), self.to_val(item))
 
     def row_const(self, a, field="lelem"):
         """a fresh constant equal to the current row of list/dict `a` (rows that
@@ -494,6 +516,11 @@ class ExprMixin:
                         return o[k]
                     raise self.implicit("IndexError", "tuple index")
                 raise Unsupported("symbolic index into concrete tuple")
+            if isinstance(o, dict):
+                ks = z3.simplify(self.as_str(idx))
+                if z3.is_string_value(ks) and ks.as_string() in o:
+                    return o[ks.as_string()]
+                raise Unsupported("subscript of a python-side dict with unknown key")
             if isinstance(o, ObjDict):
                 nm = self.as_str(idx)
                 self.require(self.obj_has(o.addr, nm), "KeyError", "__dict__ key")
@@ -618,14 +645,25 @@ class ExprMixin:
         e = norm(hi, ln)
         b = self.alloc("list")
         newlen = z3.If(e > s, e - s, 0)
-        srcrow = self.row_const(a)
-        row = core.fresh("slice_row", z3.ArraySort(core.IntS, Val))
+        rs = z3.ArraySort(core.IntS, Val)
+        # the slice's contents are a FUNCTION of (source row, start): two
+        # evaluations of the same slice denote the same row (extensionality for free)
+        slice_row = z3.Function("slice_row", rs, core.IntS, rs)
+        srcrow = z3.Select(self.heap.cur["lelem"], a)
+        row = slice_row(srcrow, s)
         j = core.fresh("j", core.IntS)
-        self.heap = self.heap.store("llen", (b,), newlen)
-        self.heap = self.heap.with_array("lelem", z3.Store(self.heap.cur["lelem"], b, row))
-        self.assume(z3.ForAll([j], z3.Implies(z3.And(0 <= j, j < newlen),
-                    z3.Select(row, j) == z3.Select(srcrow, s + j)), patterns=[z3.Select(row, j)]))
-        return TV("val", mk_ref(b), "list")
+        self.heap = self.heap.store("llen", (b,), newlen, bump=False)
+        self.heap = self.heap.with_array("lelem", z3.Store(self.heap.cur["lelem"], b, row), bump=False)
+        body = z3.Implies(z3.And(0 <= j, j < newlen), z3.Select(row, j) == z3.Select(srcrow, s + j))
+        if contains_ite(row):
+            self.assume(z3.ForAll([j], body))
+        else:
+            self.assume(z3.ForAll([j], body, patterns=[z3.Select(row, j)]))
+        out = TV("val", mk_ref(b), "list")
+        eh = self.elem_hint(lst)
+        if eh:
+            self.elem_hints[str(out.r)] = eh
+        return out
 
     def list_concat(self, x, y):
         ix, iy = self.concrete_items(x), self.concrete_items(y)
